@@ -35,6 +35,7 @@ type EngineCase struct {
 	DelayNs    int64      `json:"delay_ns"`
 	Deliveries []Delivery `json:"deliveries"`
 	CancelAtNs int64      `json:"cancel_at_ns,omitempty"`
+	CancelDL   bool       `json:"cancel_deadline,omitempty"` // see Scenario.CancelDL
 	// SendLagNs: every SendProbe takes this long; with enough probes the sender is still at work when the
 	// listening budget (timeout + sum of the send delays) runs out
 	SendLagNs int64 `json:"send_lag_ns,omitempty"`
@@ -150,13 +151,7 @@ func runEngine(t *testing.T, c *EngineCase) *engineOutcome {
 			ctx, cancel := context.WithCancel(context.Background())
 			defer cancel()
 			if c.CancelAtNs > 0 {
-				go func() {
-					select {
-					case <-time.After(time.Duration(c.CancelAtNs)):
-						cancel()
-					case <-ctx.Done():
-					}
-				}()
+				ctx = endingAt(ctx, cancel, time.Duration(c.CancelAtNs), c.CancelDL)
 			}
 			func() {
 				defer func() {
